@@ -1,4 +1,13 @@
 import Rtsp.Props.C07
+#print axioms Rtsp.Codec.Ac3.c07_flush
+#print axioms Rtsp.Codec.Ac3.c07_resync
+#print axioms Rtsp.Codec.Vp8.c07_flush
+#print axioms Rtsp.Codec.Vp8.c07_resync
+#print axioms Rtsp.Codec.Vp9.c07_flush
+#print axioms Rtsp.Codec.Vp9.c07_resync
 #print axioms Rtsp.Codec.Fragmented.c07_marker_cleans
 #print axioms Rtsp.Codec.Fragmented.c07_flush
 #print axioms Rtsp.Codec.Fragmented.c07_resync
+#print axioms Rtsp.Codec.Klv.c07_marker_cleans
+#print axioms Rtsp.Codec.Klv.c07_flush
+#print axioms Rtsp.Codec.Klv.c07_resync
